@@ -234,6 +234,10 @@ func readCompactLogFile(name string, info *CompactedFileInfo) error {
 
 func processLog(shardDir string, info *CompactedFileInfo, lockPath *string, engineType config.EngineType) error {
 	mmDir := filepath.Join(GetDir(engineType, shardDir), info.Name)
+	if !info.IsOrder {
+		// the files of an out-of-order replacement live below the measurement's out-of-order directory
+		mmDir = filepath.Join(mmDir, unorderedDir)
+	}
 	dirs, err := fileops.ReadDir(mmDir)
 	if err != nil {
 		log.Error("read dir fail", zap.String("path", mmDir), zap.Error(err))
